@@ -21,7 +21,9 @@ pub struct Base {
     pub classes: u32,
 }
 
-const CLASSES: [DataClass; 7] = [
+const CLASSES: [DataClass; 9] = [
+    DataClass::DoubledRecords,
+    DataClass::SkewedHigh,
     DataClass::Random,
     DataClass::Zeros,
     DataClass::Text,
@@ -184,6 +186,8 @@ pub fn run_roundtrip(args: &Args, rep: &mut Report) {
             w["what"] = json!(what);
             w
         };
+        // auto mode: (chunks for which grouping was predicted, of those stored raw, stored grouped, stored lz4)
+        let auto_stats = std::cell::Cell::new((0u64, 0u64, 0u64, 0u64));
         let res = xvcommon::catch(|| -> Result<(u64, bool), String> {
             let (cas, buf, nbytes) = serialize_base(&b)?;
             if nbytes != buf.len() {
@@ -198,9 +202,19 @@ pub fn run_roundtrip(args: &Args, rep: &mut Report) {
             {
                 // was the incompressible fallback taken anywhere? (scheme byte 0 although a scheme was asked)
                 let mut p = 0usize;
-                for _ in 0..n {
+                for ci in 0..n {
                     if buf[p + 4] == 0 && b.scheme != Some(CompressionScheme::None) {
                         fallback = true;
+                    }
+                    if b.scheme.is_none() && CompressionScheme::choose_from_data(&b.chunks[ci]) == CompressionScheme::ByteGrouping4LZ4 {
+                        let mut a = auto_stats.get();
+                        a.0 += 1;
+                        match buf[p + 4] {
+                            0 => a.1 += 1,
+                            2 => a.2 += 1,
+                            _ => a.3 += 1,
+                        }
+                        auto_stats.set(a);
                     }
                     let clen = u32::from_le_bytes([buf[p + 1], buf[p + 2], buf[p + 3], 0]) as usize;
                     p += 8 + clen;
@@ -308,6 +322,10 @@ pub fn run_roundtrip(args: &Args, rep: &mut Report) {
                 if n > 1152 {
                     rep.count(P, "xorbs_with_more_than_1152_chunks", 1);
                 }
+                let a = auto_stats.get();
+                rep.count(P, "auto_chunks_grouping_predicted", a.0);
+                rep.count(P, "auto_chunks_grouping_predicted_stored_raw", a.1);
+                rep.count(P, "auto_chunks_grouping_predicted_stored_grouped", a.2);
                 let sig = format!(
                     "{}|n{}|c{:x}|fb{}|r4:{}",
                     scheme_name(b.scheme),
